@@ -1,3 +1,186 @@
--- placeholder: native driver of property C07 (see checks/README.md)
-def main (_ : List String) : IO UInt32 := do
-  IO.eprintln "drv_c07: not built yet"; return 2
+import GlmVerif.Hand.C07
+import Std.Data.HashSet
+/-!
+Native driver of property C07 (see checks/README.md, checks/c07.py).
+
+  drv_c07 lines <file>          evaluate model and executable spec on every harness line
+                                `op arg-bits… -> glm-result-bits…`; prints MISMATCH (model ≠ glm) and
+                                SPECFAIL (glm's result violates the specification) lines and a CORR summary
+  drv_c07 lattice               `LB k hash` for the 256 blocks of the rounding lattice (model side)
+  drv_c07 sweep <first> <n>     `SB k hash` for blocks k = first … first+n-1 of 2^20 consecutive floats
+  drv_c07 eval p1|u1 <bits>     one model evaluation (replay)
+-/
+open Glm.Hand.C07
+
+def fnvStep (h : UInt64) (r : UInt64) : UInt64 := (h ^^^ r) * 0x100000001b3
+def fnvInit : UInt64 := 0xcbf29ce484222325
+
+/-- the 5 low-13-bit patterns of the rounding lattice -/
+def latLow : Array UInt32 := #[0, 0x0FFF, 0x1000, 0x1001, 0x1FFF]
+
+/-- hash of block k (2^20 consecutive patterns) and the number of non-trivial evaluations in it
+(result bits neither zero nor numerically the input bits) -/
+def sweepBlock (k : UInt32) : UInt64 × Nat := Id.run do
+  let base : UInt32 := k <<< 20
+  let mut h := fnvInit
+  let mut nt := 0
+  for i in [0:1048576] do
+    let f := base + i.toUInt32
+    let r := toFloat16 f
+    h := fnvStep h r.toUInt64
+    if r != 0 && r.toUInt32 != f then nt := nt + 1
+  return (h, nt)
+
+/-- lattice block k (0..255): prefixes k·2^11 … (k+1)·2^11−1, each with the 5 low patterns -/
+def latBlock (k : UInt32) : UInt64 × Nat := Id.run do
+  let mut h := fnvInit
+  let mut nt := 0
+  for p in [0:2048] do
+    let pre : UInt32 := ((k <<< 11) + p.toUInt32) <<< 13
+    for l in latLow do
+      let f := pre ||| l
+      let r := toFloat16 f
+      h := fnvStep h r.toUInt64
+      if r != 0 && r.toUInt32 != f then nt := nt + 1
+  return (h, nt)
+
+def parseNums (ws : List String) : Option (List Nat) := ws.mapM String.toNat?
+
+structure Stat where
+  lines : Nat := 0
+  mism : Nat := 0
+  specfail : Nat := 0
+  nontrivial : Nat := 0
+  ntP1off : Nat := 0
+  ntOther : Nat := 0
+  bad : Nat := 0
+  nan : Nat := 0
+  inf : Nat := 0
+  zeroRes : Nat := 0
+  subRes : Nat := 0
+  tie : Nat := 0
+  ovf : Nat := 0
+  inexact : Nat := 0
+
+def isTie (f : UInt32) : Bool :=
+  -- exact tie between two halves: decided from the specification (both neighbours admissible)
+  f32IsFinite f && (let r := toFloat16 f; (r &&& 0x7fff) != 0 && specF16 f r && specF16 f (r - 1) && f32Mag f < ovfThreshold)
+
+/-- evaluate one line; returns (model results, spec verdict on glm's results, nontrivial) -/
+def evalLine (op : String) (a r : Array Nat) : Option (Array Nat × Bool × Bool) :=
+  let u32 (i : Nat) : UInt32 := (a[i]!).toUInt32
+  let u16 (i : Nat) : UInt16 := (a[i]!).toUInt16
+  let r16 (i : Nat) : UInt16 := (r[i]!).toUInt16
+  let r32 (i : Nat) : UInt32 := (r[i]!).toUInt32
+  match op with
+  | "p1" => if a.size == 1 && r.size == 1 then
+      some (#[(packHalf1x16 (u32 0)).toNat], specF16 (u32 0) (r16 0), r[0]! != 0 && r[0]! != a[0]!) else none
+  | "u1" => if a.size == 1 && r.size == 1 then
+      some (#[(unpackHalf1x16 (u16 0)).toNat], specF32 (u16 0) (r32 0), r[0]! != 0 && r[0]! != a[0]!) else none
+  | "rt" => if a.size == 1 && r.size == 1 then
+      some (#[(packHalf1x16 (unpackHalf1x16 (u16 0))).toNat], r[0]! == a[0]!, false) else none
+  | "p2" => if a.size == 2 && r.size == 1 then
+      let v := r32 0
+      some (#[(packHalf2x16 (u32 0) (u32 1)).toNat],
+            specF16 (u32 0) v.toUInt16 && specF16 (u32 1) (v >>> 16).toUInt16, r[0]! != 0) else none
+  | "u2" => if a.size == 1 && r.size == 2 then
+      let v := u32 0
+      some (#[(unpackHalf2x16_x v).toNat, (unpackHalf2x16_y v).toNat],
+            specF32 v.toUInt16 (r32 0) && specF32 (v >>> 16).toUInt16 (r32 1), r[0]! != 0 || r[1]! != 0) else none
+  | "p4" => if a.size == 4 && r.size == 1 then
+      let v := (r[0]!).toUInt64
+      some (#[(packHalf4x16 (u32 0) (u32 1) (u32 2) (u32 3)).toNat],
+            specF16 (u32 0) v.toUInt16 && specF16 (u32 1) (v >>> 16).toUInt16 &&
+            specF16 (u32 2) (v >>> 32).toUInt16 && specF16 (u32 3) (v >>> 48).toUInt16, r[0]! != 0) else none
+  | "u4" => if a.size == 1 && r.size == 4 then
+      let v := (a[0]!).toUInt64
+      some (#[(unpackHalf4x16_k 0 v).toNat, (unpackHalf4x16_k 1 v).toNat, (unpackHalf4x16_k 2 v).toNat, (unpackHalf4x16_k 3 v).toNat],
+            specF32 v.toUInt16 (r32 0) && specF32 (v >>> 16).toUInt16 (r32 1) &&
+            specF32 (v >>> 32).toUInt16 (r32 2) && specF32 (v >>> 48).toUInt16 (r32 3), r.any (· != 0)) else none
+  | "pv" => if a.size == r.size && a.size ≥ 1 && a.size ≤ 4 then
+      let m := packHalfV (a.map Nat.toUInt32)
+      some (m.map UInt16.toNat, (List.range a.size).all (fun i => specF16 (u32 i) (r16 i)), r.any (· != 0)) else none
+  | "uv" => if a.size == r.size && a.size ≥ 1 && a.size ≤ 4 then
+      let m := unpackHalfV (a.map Nat.toUInt16)
+      some (m.map UInt32.toNat, (List.range a.size).all (fun i => specF32 (u16 i) (r32 i)), r.any (· != 0)) else none
+  | _ => none
+
+def runLines (path : String) : IO UInt32 := do
+  let h ← IO.FS.Handle.mk path IO.FS.Mode.read
+  let mut st : Stat := {}
+  let mut seen : Std.HashSet String := {}
+  repeat
+    let ln ← h.getLine
+    if ln.isEmpty then break
+    let ln := (ln.trimAsciiEnd).toString
+    if ln.isEmpty then continue
+    let ws := ln.splitOn " " |>.filter (· != "")
+    match ws with
+    | op :: rest =>
+      let (as, rs) := rest.span (· != "->")
+      match parseNums as, parseNums (rs.drop 1) with
+      | some a, some r =>
+        match evalLine op a.toArray r.toArray with
+        | some (m, ok, nt) =>
+          st := { st with lines := st.lines + 1 }
+          if m != r.toArray then
+            st := { st with mism := st.mism + 1 }
+            if st.mism ≤ 20 then IO.println s!"MISMATCH {ln} model {" ".intercalate (m.toList.map toString)}"
+          if !ok then
+            st := { st with specfail := st.specfail + 1 }
+            if st.specfail ≤ 20 then IO.println s!"SPECFAIL {ln}"
+          let onLattice := op == "p1" && latLow.contains ((a[0]!).toUInt32 &&& 0x1fff)
+          if nt && op == "p1" && !onLattice then st := { st with ntP1off := st.ntP1off + 1 - (if seen.contains (op ++ " " ++ " ".intercalate as) then 1 else 0) }
+          if nt && op != "p1" then st := { st with ntOther := st.ntOther + 1 - (if seen.contains (op ++ " " ++ " ".intercalate as) then 1 else 0) }
+          if nt then
+            let key := op ++ " " ++ " ".intercalate as
+            if !seen.contains key then
+              seen := seen.insert key
+              st := { st with nontrivial := st.nontrivial + 1 }
+          if op == "p1" then
+            let f := (a[0]!).toUInt32
+            let rr := (r[0]!).toUInt16
+            if f32IsNaN f then st := { st with nan := st.nan + 1 }
+            else if f32IsInf f then st := { st with inf := st.inf + 1 }
+            else
+              if (rr &&& 0x7fff) == 0 then st := { st with zeroRes := st.zeroRes + 1 }
+              else if (rr &&& 0x7c00) == 0 then st := { st with subRes := st.subRes + 1 }
+              else if (rr &&& 0x7fff) == 0x7c00 then st := { st with ovf := st.ovf + 1 }
+              if (f &&& 0x1fff) != 0 then st := { st with inexact := st.inexact + 1 }
+              if isTie f then st := { st with tie := st.tie + 1 }
+        | none => st := { st with bad := st.bad + 1 }
+      | _, _ => st := { st with bad := st.bad + 1 }
+    | [] => pure ()
+  IO.println s!"CORR lines={st.lines} mismatches={st.mism} specfail={st.specfail} nontrivial={st.nontrivial} nontrivial_p1_off_lattice={st.ntP1off} nontrivial_not_p1={st.ntOther} bad={st.bad}"
+  IO.println s!"CLASS p1_nan={st.nan} p1_inf={st.inf} p1_zero_result={st.zeroRes} p1_subnormal_result={st.subRes} p1_overflow_to_inf={st.ovf} p1_low_bits_nonzero={st.inexact} p1_exact_tie={st.tie}"
+  return 0
+
+def main (args : List String) : IO UInt32 := do
+  match args with
+  | ["lines", path] => runLines path
+  | ["lattice"] =>
+    for k in [0:256] do
+      let (h, nt) := latBlock k.toUInt32
+      IO.println s!"LB {k} {h} {nt}"
+    return 0
+  | ["sweep", first, n] =>
+    match first.toNat?, n.toNat? with
+    | some f, some n =>
+      for k in [f:f+n] do
+        let (h, nt) := sweepBlock k.toUInt32
+        IO.println s!"SB {k} {h} {nt}"
+      return 0
+    | _, _ => IO.eprintln "bad args"; return 2
+  | ["eval", "p1", x] =>
+    match x.toNat? with
+    | some v => IO.println s!"{toFloat16 v.toUInt32} spec_accepts_model={specF16 v.toUInt32 (toFloat16 v.toUInt32)}"; return 0
+    | none => return 2
+  | ["eval", "u1", x] =>
+    match x.toNat? with
+    | some v => IO.println s!"{toFloat32 v.toUInt16}"; return 0
+    | none => return 2
+  | ["spec", "p1", x, r] =>
+    match x.toNat?, r.toNat? with
+    | some v, some r => IO.println s!"{specF16 v.toUInt32 r.toUInt16}"; return 0
+    | _, _ => return 2
+  | _ => IO.eprintln "usage: drv_c07 lines <file> | lattice | sweep <first> <n> | eval p1|u1 <bits> | spec p1 <f> <r>"; return 2
